@@ -94,6 +94,9 @@ pub fn accept_language() -> impl Strategy<Value = String> {
     let tag = prop_oneof![
         6 => prop_oneof![Just("en"), Just("en-US"), Just("fr"), Just("de-DE"), Just("es"), Just("ja"), Just("ru"), Just("pt-BR"), Just("zh-CN"), Just("nl")].prop_map(|s| s.to_string()),
         2 => prop_oneof![Just("xx"), Just("zz-ZZ"), Just("*"), Just("q1")].prop_map(|s| s.to_string()),
+        // primary subtags that merely *start* like a known two-letter code (three-letter ISO 639-2 codes, upper case, longer words)
+        3 => prop_oneof![Just("fil"), Just("fil-PH"), Just("haw"), Just("ast-ES"), Just("yue-HK"), Just("eng"), Just("EN"), Just("En-us"), Just("deu"), Just("français"), Just("e"), Just("english")].prop_map(|s| s.to_string()),
+        1 => "[a-z]{3,5}(-[A-Z]{2})?",
     ];
     let q = prop_oneof![3 => Just(None), 4 => prop_oneof![Just("0"), Just("0.1"), Just("0.5"), Just("0.8"), Just("0.9"), Just("1"), Just("1.0"), Just("0.123")].prop_map(|s| Some(s.to_string()))];
     vec((tag, q, prop_oneof![Just(""), Just(" ")]), 1..6).prop_map(|m| {
